@@ -465,6 +465,7 @@ func allZero(s *pred.StructV) bool {
 // ruleC03Skel: the formatter's append sequence.
 func ruleC03Skel(e *Env) {
 	const rule = "C03.skel"
+	e.skeleton(rule, "sem", "pattern", "^<1>.<2>.<3>[-<4>][+<5>]$")
 	fn := e.Fn(rule, "sem", "DefaultFormatter")
 	sp := e.P.ByName["sem"]
 	if fn == nil || sp == nil || sp.Type("Ver") == nil {
